@@ -43,6 +43,11 @@ def build_grid() -> list[dict]:
                                 # management replies carry no other fields of their own: "whichever other fields the reply carries" is
                                 # exercised with a foreign item placed ahead of the state / error items
                                 cells.append({"step": step, "driver": driver, "code": code, "state": state, "keep": keep, "first": first, "foreign": True})
+                            elif keep and (code is not None or state not in ("expected", "absent")):
+                                # setup / verify steps: the same foreign item (a type the step's `expected` list does not name) ahead of
+                                # the state / error items of an ERROR or wrong-step reply. Only the error half is judged with it: whether
+                                # an otherwise honest reply with a foreign item must be accepted is not what the property says.
+                                cells.append({"step": step, "driver": driver, "code": code, "state": state, "keep": keep, "first": first, "foreign": True})
     return cells
 
 
@@ -114,6 +119,8 @@ def execute(plan: dict, ch: Chooser) -> dict:
     name = type(exc).__name__ if exc is not None else None
     desc = f"step {step} driver {driver} code {code} state {state} keep_fields {cell['keep']} error_first {cell['first']} foreign_item_first {cell.get('foreign', False)}"
     ctx.event("cell", cell.get("cell"), name, result is not None)
+    if cell.get("foreign") and step not in ("add_m2", "remove_m2"):
+        driver = driver + "+foreign-item-first"  # (signature component: findings are identified by the failing input)
     if code is not None or wrong_state:
         if result is not None:
             ctx.violate("error-reply-completed-as-success", f"{step}/{driver}/state={'wrong' if wrong_state else state}/code={'yes' if code is not None else 'no'}",
